@@ -150,7 +150,7 @@ def run_schedule(codes, ops, overrides=(), wait_s=10.0):
     return results, s
 
 
-def explore(codes, make_ops, check, bound, max_schedules=100000, wait_s=10.0):
+def explore(codes, make_ops, check, bound, max_schedules=100000, wait_s=10.0, max_seconds=None):
     """Enumeration (breadth first in the number of overrides) of schedules with at most `bound` overrides.
 
     make_ops() -> fresh list of callables (state reset is the caller's business);
@@ -162,7 +162,12 @@ def explore(codes, make_ops, check, bound, max_schedules=100000, wait_s=10.0):
     stack = collections.deque([()])
     seen = set()
     stats = {'schedules': 0, 'fingerprints': set(), 'max_decisions': 0, 'failed': [], 'by_preemptions': {}}
+    t_start = time.time()
     while stack and stats['schedules'] < max_schedules:
+        if max_seconds is not None and time.time() - t_start > max_seconds:
+            # a budget on the exploration, not a verdict: what was not run is reported as left unexplored
+            stats['stopped_by_time_budget'] = True
+            break
         ov = stack.popleft()
         if ov in seen:
             continue
